@@ -32,6 +32,7 @@ type CallSpec struct {
 	Ordinal int
 	Before  []*Clause // assert before call
 	After   []*Clause // assert after call
+	Assume  []*Clause // ghost definitions assumed after the call (listed as assumptions)
 	Hit     bool
 }
 
@@ -478,6 +479,10 @@ func (C *Contracts) parseFile(path, pkgPath string) error {
 				}
 				curLoop.Decreases = c
 			case "assume", "assert":
+				if curLemma == nil && kw == "assume" && curCall != nil {
+					curCall.Assume = append(curCall.Assume, c)
+					break
+				}
 				if curLemma == nil {
 					return fmt.Errorf("%s:%d: %s outside lemma", path, l.line, kw)
 				}
@@ -605,6 +610,7 @@ func (C *Contracts) parseFile(path, pkgPath string) error {
 			C.Axioms = append(C.Axioms, curAxiom)
 			curF, curLoop, curLemma = nil, nil, nil
 		case "lemma":
+			curCall = nil
 			curLemma = &Lemma{Name: rest, Pkg: pkgPath, File: path, Line: l.line}
 			C.Lemmas = append(C.Lemmas, curLemma)
 			curF, curLoop, curAxiom = nil, nil, nil
